@@ -9,7 +9,8 @@ character): unquoted / single / double quoted values, missing values, duplicates
 names (`"`, `'`, `<`, `=`), `/` placements, upper case, non-ASCII bytes, whitespace of all five kinds,
 unfinished tags, plus a malformed stream (random bytes after `<x`). Cuts everywhere inside the tag.
 Queries: names of the tag's attributes (case-varied), near misses, names the validator rejects.
-Edit scripts (about 45 % of the cases, never on tags with a byte-order mark in a name / value): attribute-less tags,
+Edit scripts (about 45 % of the cases, also on tags with a byte-order mark in a name / value, and occasionally setting a
+BOM-prefixed name / value — the accessors no longer sniff BOMs): attribute-less tags,
 duplicates, case variants of the edited name, set-then-remove, remove-then-set, set twice, names the validators reject,
 renames (valid, upper case, invalid first character, forbidden characters, empty); the edited names are always queried.
 """
@@ -29,7 +30,7 @@ ATTR_NAMES = ["a", "b", "href", "class", "id", "disabled", "DATA-x", "data-x", "
               "xlink:href", "definitionURL", "a=", "\x80"]
 ATTR_VALUES = ["", "b", "x y", "text/html", "application/xhtml+xml", "TEXT/HTML", ">", "/", "a=b", "'", '"', "<b>",
                "--", "\xff", "\xe9t\xe9", "a/", "=", "==", "`", "a\tb", "\x80\x9f", "1", "0", "\xa0", "<", "//"]
-# names / values beginning with a byte-order mark: the read accessors sniff it (known finding); kept rare
+# names / values beginning with a byte-order mark: the read accessors used to sniff it (repaired finding); kept covered
 BOM_NAMES = ["\xef\xbb\xbfx", "\xff\xfea"]
 BOM_VALUES = ["\xef\xbb\xbf\xe9", "\xff\xfeab", "\xfe\xffab"]
 WS = [" ", "\n", "\t", "\r", "\x0c", "  ", " \n"]
@@ -131,6 +132,10 @@ def has_bom(t):
     return "\xef\xbb\xbf" in t or "\xff\xfe" in t or "\xfe\xff" in t
 
 
+def edit_value(rng):
+    return rng.choice(ATTR_VALUES if rng.random() > 0.03 else BOM_VALUES)
+
+
 def edits(rng, names):
     """an edit script and the names it touches"""
     es, touched = [], []
@@ -139,29 +144,31 @@ def edits(rng, names):
         r = rng.random()
         if names and r < 0.6:
             return caseify(rng, rng.choice(names))
-        if r < 0.85:
+        if r < 0.83:
             return caseify(rng, rng.choice(NEW_NAMES))
+        if r < 0.86:
+            return rng.choice(BOM_NAMES)
         return rng.choice(BAD_ATTR_NAMES)
 
     shape = rng.random()
     if shape < 0.2:                                   # set then remove the same name (case-varied)
         n = target()
-        es += [("s", n, rng.choice(ATTR_VALUES)), ("r", caseify(rng, n))]
+        es += [("s", n, edit_value(rng)), ("r", caseify(rng, n))]
         touched.append(n)
     elif shape < 0.35:                                # remove then set
         n = target()
-        es += [("r", n), ("s", caseify(rng, n), rng.choice(ATTR_VALUES))]
+        es += [("r", n), ("s", caseify(rng, n), edit_value(rng))]
         touched.append(n)
     elif shape < 0.45:                                # set twice
         n = target()
-        es += [("s", n, rng.choice(ATTR_VALUES)), ("s", caseify(rng, n), rng.choice(ATTR_VALUES))]
+        es += [("s", n, edit_value(rng)), ("s", caseify(rng, n), edit_value(rng))]
         touched.append(n)
     else:
         for _ in range(rng.choice([1, 1, 2, 3, 4])):
             r = rng.random()
             if r < 0.45:
                 n = target()
-                es.append(("s", n, rng.choice(ATTR_VALUES)))
+                es.append(("s", n, edit_value(rng)))
                 touched.append(n)
             elif r < 0.8:
                 n = target()
@@ -205,11 +212,9 @@ def gen(rng, n, tier, pid):
             cut = str(rng.randrange(0, total + 1))
         qs = queries(rng, names)
         es = []
-        if rng.random() < 0.45 and not has_bom(t):
+        if rng.random() < 0.45:
             es, touched = edits(rng, names)
             qs = [caseify(rng, n) for n in touched] + qs
-            if any(has_bom(x) for e in es for x in e[1:]):
-                es = []
         # the query list is comma separated hex; an empty query cannot be written, use none instead
         qs = [q for q in qs if q != ""][:7]
         qstr = ','.join(hx(q) for q in qs) if qs else '-'
@@ -227,10 +232,14 @@ def nontrivial(case, obs):
 def stats(cases, obs):
     d = {"cases": len(cases), "with_element": 0, "cut": 0, "svg": 0, "math": 0, "attrs>=2": 0, "self_closing": 0,
          "lookup_hit": 0, "lookup_miss": 0, "oracle": 0, "edited": 0, "edit_on_attrless": 0, "edit_rejected": 0,
-         "renamed": 0}
+         "renamed": 0, "bom": 0, "bom_edited": 0, "rejected_name_listed": 0}
     for c, o in zip(cases, obs):
         f = c.split(" ")
         d["cut"] += f[2] != "-"
+        bom = has_bom(bytes.fromhex(f[1]).decode("latin-1")) if f[1] != "-" else False
+        d["bom"] += bom
+        d["bom_edited"] += bom and len(f) == 5
+        d["rejected_name_listed"] += any(x in o for x in (":3d", "+3d"))
         if len(f) == 5:
             d["edited"] += ":A:" in o
             d["edit_on_attrless"] += ":-:-:A:" in o or ":-:g" in o.split(":A:")[0][-12:]
